@@ -55,6 +55,23 @@ pub assume_specification [std::string::String::from_utf8] (b: Vec<u8>) -> (r: Re
             r is Ok ==> vstd::utf8::encode_utf8(r->Ok_0@) == b@;
 pub assume_specification<T: Clone> [<[T]>::to_vec] (s: &[T]) -> (r: Vec<T>)
     ensures r@ == s@;
+// ---- text transformations: deliberately WEAK specifications (result is some uninterpreted function of the input).  The repository
+// does not use them; they are here so that a change which starts to trim / re-case text stays inside the verifier and refutes the
+// "kept verbatim" obligations directly instead of pushing the function outside its reach.
+pub uninterp spec fn str_trim(s: Seq<char>) -> Seq<char>;
+pub uninterp spec fn str_trim_start(s: Seq<char>) -> Seq<char>;
+pub uninterp spec fn str_trim_end(s: Seq<char>) -> Seq<char>;
+pub uninterp spec fn str_lower(s: Seq<char>) -> Seq<char>;
+pub uninterp spec fn str_upper(s: Seq<char>) -> Seq<char>;
+pub uninterp spec fn str_ascii_lower(s: Seq<char>) -> Seq<char>;
+pub uninterp spec fn str_ascii_upper(s: Seq<char>) -> Seq<char>;
+pub assume_specification [str::trim] (s: &str) -> (r: &str) ensures r@ == str_trim(s@), r@.len() <= s@.len();
+pub assume_specification [str::trim_start] (s: &str) -> (r: &str) ensures r@ == str_trim_start(s@), r@.len() <= s@.len();
+pub assume_specification [str::trim_end] (s: &str) -> (r: &str) ensures r@ == str_trim_end(s@), r@.len() <= s@.len();
+pub assume_specification [str::to_lowercase] (s: &str) -> (r: String) ensures r@ == str_lower(s@);
+pub assume_specification [str::to_uppercase] (s: &str) -> (r: String) ensures r@ == str_upper(s@);
+pub assume_specification [str::to_ascii_lowercase] (s: &str) -> (r: String) ensures r@ == str_ascii_lower(s@), r@.len() == s@.len();
+pub assume_specification [str::to_ascii_uppercase] (s: &str) -> (r: String) ensures r@ == str_ascii_upper(s@), r@.len() == s@.len();
 pub broadcast proof fn ax_str_bytes_inj(a: &str, b: &str)
     ensures (#[trigger] a.spec_bytes() == #[trigger] b.spec_bytes()) ==> a@ == b@
 { vstd::utf8::encode_utf8_decode_utf8(a@); vstd::utf8::encode_utf8_decode_utf8(b@); }
